@@ -140,5 +140,95 @@ b("gen-impl-inline-not-always", G,
   "            let gen = quote! {\n                #[inline(always)]\n                #safety #abi fn #name <#sig_life_declare #sig_gen_declare> (#args) #out {",
   "            let gen = quote! {\n                #[inline]\n                #safety #abi fn #name <#sig_life_declare #sig_gen_declare> (#args) #out {", ["C01", "C02", "C04"])
 
+BG = "cglue-bindgen/src/codegen/c.rs"
+b("bindgen-contexts-hashset-then-sorted-vec", BG,
+  "    let mut contexts = BTreeSet::new();\n",
+  "    let mut contexts = HashSet::new();\n", ["C18"],
+  also=[["    contexts.remove(\"Context\");\n    let header = monomorphize_contexts(header, &contexts)?;",
+         "    contexts.remove(\"Context\");\n    let mut contexts = contexts.into_iter().collect::<Vec<String>>();\n    contexts.sort();\n    let header = monomorphize_contexts(header, &contexts)?;"],
+        ["    contexts: &BTreeSet<String>,", "    contexts: &[String],"],
+        ["use std::collections::{BTreeSet, HashMap, HashSet, VecDeque};", "use std::collections::{HashMap, HashSet, VecDeque};"]])
+b("bindgen-contexts-loop-by-iter", BG,
+  "        for context in contexts {\n", "        for context in contexts.iter() {\n", ["C18"])
+SL = "cglue/src/slice.rs"
+b("slice-from-cref-destructure", SL,
+  "impl<'a, T> From<CSliceRef<'a, T>> for &'a [T] {\n    fn from(from: CSliceRef<'a, T>) -> Self {\n        unsafe { core::slice::from_raw_parts(from.data, from.len) }",
+  "impl<'a, T> From<CSliceRef<'a, T>> for &'a [T] {\n    fn from(from: CSliceRef<'a, T>) -> Self {\n        let CSliceRef { data, len, .. } = from;\n        unsafe { core::slice::from_raw_parts(data, len) }", ["C12", "C02"])
+b("slice-from-slice-locals", SL,
+  "        Self {\n            data: s.as_ptr(),\n            len: s.len(),\n            _lifetime: PhantomData {},\n        }",
+  "        let len = s.len();\n        let data = s.as_ptr();\n        Self {\n            data,\n            len,\n            _lifetime: PhantomData,\n        }", ["C12", "C02", "C16"])
+b("slice-tryfrom-via-from", SL,
+  "    fn try_from(from: CSliceRef<'a, u8>) -> Result<Self, Self::Error> {\n        core::str::from_utf8(unsafe { core::slice::from_raw_parts(from.data, from.len) })",
+  "    fn try_from(from: CSliceRef<'a, u8>) -> Result<Self, Self::Error> {\n        let bytes: &'a [u8] = from.into();\n        core::str::from_utf8(bytes)", ["C12", "C02"])
+b("slice-mut-from-locals", SL,
+  "impl<'a, T> From<&'a mut [T]> for CSliceMut<'a, T> {\n    fn from(from: &'a mut [T]) -> Self {\n        Self {\n            data: from.as_mut_ptr(),\n            len: from.len(),\n            _lifetime: PhantomData::default(),\n        }",
+  "impl<'a, T> From<&'a mut [T]> for CSliceMut<'a, T> {\n    fn from(from: &'a mut [T]) -> Self {\n        let len = from.len();\n        let data = from.as_mut_ptr();\n        Self {\n            data,\n            len,\n            _lifetime: PhantomData,\n        }", ["C12", "C02"])
+b("slice-mut-deref-direct", SL,
+  "impl<'a, T> core::ops::Deref for CSliceMut<'a, T> {\n    type Target = [T];\n\n    fn deref(&self) -> &Self::Target {\n        self.as_slice()",
+  "impl<'a, T> core::ops::Deref for CSliceMut<'a, T> {\n    type Target = [T];\n\n    fn deref(&self) -> &Self::Target {\n        unsafe { core::slice::from_raw_parts(self.data, self.len) }", ["C12"])
+
+O = "cglue/src/option.rs"
+b("opt-from-if-let", O,
+  "        match opt {\n            None => Self::None,\n            Some(t) => Self::Some(t),\n        }",
+  "        if let Some(t) = opt {\n            Self::Some(t)\n        } else {\n            Self::None\n        }", ["C12", "C02"])
+b("opt-as-ref-default-binding", O,
+  "        match *self {\n            COption::Some(ref x) => Some(x),\n            COption::None => None,\n        }",
+  "        match self {\n            COption::Some(x) => Some(x),\n            COption::None => None,\n        }", ["C12"])
+b("opt-take-replace", O,
+  "        core::mem::take(self).into()",
+  "        let old = core::mem::replace(self, COption::None);\n        old.into()", ["C12"])
+b("opt-unwrap-if-let", O,
+  "        match self {\n            COption::Some(val) => val,\n            COption::None => panic!(\"called `COption::unwrap()` on a `None` value\"),\n        }",
+  "        if let COption::Some(val) = self {\n            val\n        } else {\n            panic!(\"called `COption::unwrap()` on a `None` value\")\n        }", ["C12"])
+
+T = "cglue/src/task/mod.rs"
+b("task-clone-manuallydrop", T,
+  "            BaseArc::increment_strong_count(data);\n            let waker = BaseArc::from_raw(data);\n            CRawWaker::to_raw(waker)",
+  "            let this = core::mem::ManuallyDrop::new(BaseArc::from_raw(data));\n            CRawWaker::to_raw(BaseArc::clone(&this))", ["C19"])
+b("task-drop-drop-call", T,
+  "            let _ = BaseArc::from_raw(data as *const CRawWaker);",
+  "            core::mem::drop(BaseArc::from_raw(data as *const CRawWaker));", ["C19"])
+b("task-wake-explicit-drop", T,
+  "            let this = BaseArc::from_raw(data as *const CRawWaker);\n            (this.vtable.wake_by_ref)(this.waker)\n        }",
+  "            let this = BaseArc::from_raw(data as *const CRawWaker);\n            let raw = this.waker;\n            (this.vtable.wake_by_ref)(raw);\n            core::mem::drop(this);\n        }", ["C19"])
+b("task-wake-by-ref-one-line", T,
+  "            let data = data as *const CRawWaker;\n            let this = &*data;\n            (this.vtable.wake_by_ref)(this.waker)",
+  "            let this = &*(data as *const CRawWaker);\n            (this.vtable.wake_by_ref)(this.waker)", ["C19"])
+b("task-vtbl-drop-drop-call", T,
+  "            let _: Waker = core::mem::transmute(w);",
+  "            core::mem::drop(core::mem::transmute::<OpaqueRawWaker, Waker>(w));", ["C19"])
+
+GG = "cglue-gen/src/trait_groups.rs"
+b("gen-group-check-matches", GG,
+  "                    self.#func_name_ref().is_some()",
+  "                    matches!(self.#func_name_ref(), ::core::option::Option::Some(_))", ["C08"])
+b("gen-group-cast-bind-result", GG,
+  "                    Some(#opt_name {\n                        container,\n                        #mand_vtbl_list\n                        #mixed_opt_vtbl_unwrap\n                    })",
+  "                    let ret = #opt_name {\n                        container,\n                        #mand_vtbl_list\n                        #mixed_opt_vtbl_unwrap\n                    };\n\n                    Some(ret)", ["C08", "C06", "C07", "C01"])
+BM = "cglue-bindgen/src/main.rs"
+b("bindgen-main-args-once", BM,
+  "    let args_pre = env::args()\n        .skip(1)\n        .take_while(|v| v != \"--\")\n        .collect::<Vec<_>>();\n    let args = env::args().skip_while(|v| v != \"--\").collect::<Vec<_>>();",
+  "    let all = env::args().collect::<Vec<String>>();\n    let args_pre = all\n        .iter()\n        .skip(1)\n        .take_while(|v| *v != \"--\")\n        .cloned()\n        .collect::<Vec<_>>();\n    let args = all\n        .iter()\n        .skip_while(|v| *v != \"--\")\n        .cloned()\n        .collect::<Vec<_>>();", ["C18"])
+b("bindgen-main-write-bytes", BM,
+  "        file.write_all(output.as_str().as_bytes())?;",
+  "        file.write_all(output.as_bytes())?;", ["C18"])
+b("bindgen-main-fs-write", BM,
+  "        let mut file = File::create(path)?;\n        file.write_all(output.as_str().as_bytes())?;",
+  "        std::fs::write(path, output.as_bytes())?;", ["C18"],
+  also=[["use std::io::{Read, Write};", "use std::io::Read;"]])
+b("bindgen-main-output-first-wins-binding", BM,
+  "                if output_file.is_none() {\n                    output_file = Some(a[1].clone());\n                }",
+  "                let path = a[1].clone();\n                if output_file.is_none() {\n                    output_file = Some(path);\n                }", ["C18"])
+TG = "cglue/src/trait_group.rs"
+b("verify-and-flat-match", TG,
+  "        match self {\n            VerifyLayout::Valid => other,\n            VerifyLayout::Invalid => self,\n            _ => match other {\n                VerifyLayout::Valid => self,\n                _ => other,\n            },\n        }",
+  "        match (self, other) {\n            (VerifyLayout::Invalid, _) | (_, VerifyLayout::Invalid) => VerifyLayout::Invalid,\n            (VerifyLayout::Unknown, _) | (_, VerifyLayout::Unknown) => VerifyLayout::Unknown,\n            (VerifyLayout::Valid, VerifyLayout::Valid) => VerifyLayout::Valid,\n        }", ["C20"])
+b("verify-relaxed-not-invalid", TG,
+  "        matches!(self, VerifyLayout::Valid | VerifyLayout::Unknown)",
+  "        !matches!(self, VerifyLayout::Invalid)", ["C20"])
+b("verify-compare-match-tuple", TG,
+  "    if let (Some(expected), Some(found)) = (expected, found) {",
+  "    if let (Some(found), Some(expected)) = (found, expected) {", ["C20"])
+
 json.dump(B, open(os.path.join(os.path.dirname(os.path.abspath(__file__)), "benign.json"), "w"), indent=1)
 print(len(B), "benign edits")
